@@ -1,4 +1,5 @@
 import DuneVerif.Proofs.C05History
+import DuneVerif.Proofs.C05Async
 /-!
 # C05 — Interface + buffered communication move each value to exactly its matches
 
@@ -703,6 +704,171 @@ theorem comm_measure (s : Setting) (fwd : Bool) {ph ph' : Nat → Phase} (hstep 
     | post q hq hi => exact todoSum_update_lt _ ph q hq _ (by rw [hi]; decide)
     | finish q hq hp _ => exact todoSum_update_lt _ ph q hq _ (by rw [hp]; decide)
   · exact todoSum_eq_zero _ _
+
+/-! ## 7b. The processes are not synchronised (round three)
+
+`history_*` above treat every `forward`/`backward` as one collective step in which the messages carry what their senders
+gathered in THAT communication.  MPI gives no such guarantee by itself: the payload of an `MPI_Issend` is read from the
+send buffer at some time between the posting and the completion of the request (large messages: when the receive is
+matched), the processes run at their own pace, and the next `sendRecv` gathers into the same buffer.  The guarantee
+rests on the completion loops at the end of `sendRecv`, whose bounds are REGENERATED from communicator.hh.
+`AStep` (Model/C05Async.lean) is the asynchronous system: every process walks through the history on its own; a posted
+send stays outstanding until MPI transfers it, and the transfer reads the sender's buffer as it is at that moment; a
+process leaves `sendRecv` when its receives are complete and the sends it waits for have been transferred. -/
+
+/-- **sendRecv_completes_all.**  As read from the source: the last loop of `sendRecv` waits for the send request of every
+    neighbour a send was posted to, the `MPI_Waitany` loop runs once per posted receive and looks at all entries of
+    `recvRequests`.  (With a bound of the send loop that covers only the first `numberOfRealRecvRequests` entries the first
+    conjunct is false: a neighbour that is only sent to can sit behind that position.) -/
+theorem sendRecv_completes_all (c : Comm) (fwd : Bool) :
+    c.waitedSends fwd = c.postedSends fwd ∧ c.recvLoopIters fwd = (c.postedRecvs fwd).length ∧
+      c.recvWaitCount fwd = c.msgs.length := by
+  refine ⟨?_, ?_, ?_⟩
+  · simp [Comm.waitedSends, Comm.boundVal, Gen.sendWaitBound, Comm.postedSends]
+  · simp [Comm.recvLoopIters, Comm.boundVal, Gen.recvLoopBound]
+  · simp [Comm.recvWaitCount, Comm.boundVal, Gen.recvWaitCount]
+
+/-- the asynchronous system of a setting: policies, the directions of the history, and what the user assigns before
+    communication `k` on process `p` -/
+def Setting.asys (s : Setting) {Val Data : Type} (gather : Data → Nat → Nat → Val) (scatter : Data → Val → Nat → Nat → Data)
+    (dirs : List Bool) (pre : Nat → Nat → Cont Data → Cont Data) : ASys Val Data :=
+  { P := s.sys.P, comm := s.comm, gather := gather, scatter := scatter, dirs := dirs, pre := pre }
+
+theorem Setting.postedSends_lt (s : Setting) (h : s.OK) (fwd : Bool) {p q : Nat} (hm : q ∈ (s.comm p).postedSends fwd) :
+    q < s.sys.P := by
+  have hg := dirNet_good s.ign s.S s.T s.sys s.sz s.csS s.csT h.wf h.sz h.sizes fwd
+  have := Net.postedSends_lt _ hg p q (by rw [← postedSends_dirNet]; exact hm)
+  rwa [dirNet_P] at this
+
+theorem Setting.postedRecvs_lt (s : Setting) (h : s.OK) (fwd : Bool) {p q : Nat} (hm : q ∈ (s.comm p).postedRecvs fwd) :
+    q < s.sys.P := by
+  have hg := dirNet_good s.ign s.S s.T s.sys s.sz s.csS s.csT h.wf h.sz h.sizes fwd
+  have := Net.postedRecvs_lt _ hg p q (by rw [← postedRecvs_dirNet]; exact hm)
+  rwa [dirNet_P] at this
+
+theorem Setting.asys_ok (s : Setting) (h : s.OK) {Val Data : Type} (gather : Data → Nat → Nat → Val)
+    (scatter : Data → Val → Nat → Nat → Data) (dirs : List Bool) (pre : Nat → Nat → Cont Data → Cont Data) :
+    AOK (s.asys gather scatter dirs pre) where
+  matched := fun fwd p q hp hq => ((recv_posted_iff_send_posted s h fwd (fun _ _ => ()) hp hq).1).symm
+  sendsLt := fun fwd _ _ _ hm => s.postedSends_lt h fwd hm
+  recvsLt := fun fwd _ _ _ hm => s.postedRecvs_lt h fwd hm
+  sendsNodup := fun fwd p => by
+    have hk := Net.msgs_keys _ h.good.keys p
+    have : (((s.comm p).msgs.filter fun e => (sendMsgInfo fwd e.2).size != 0).map (·.1)).Pairwise (· < ·) :=
+      List.Pairwise.sublist (List.Sublist.map _ List.filter_sublist) hk
+    exact this.imp (fun hlt => Nat.ne_of_lt hlt)
+  recvsNodup := fun fwd p => by
+    have hk := Net.msgs_keys _ h.good.keys p
+    have : (((s.comm p).msgs.filter fun e => (recvMsgInfo fwd e.2).size != 0).map (·.1)).Pairwise (· < ·) :=
+      List.Pairwise.sublist (List.Sublist.map _ List.filter_sublist) hk
+    exact this.imp (fun hlt => Nat.ne_of_lt hlt)
+  waited := fun fwd p q hq => by
+    rw [show (s.asys gather scatter dirs pre).comm = s.comm from rfl, (sendRecv_completes_all _ fwd).1]
+    exact hq
+
+/-- the schedule function recorded by an execution, completed arbitrarily where nothing is recorded yet -/
+def schedOf (gh : Ghost) : Nat → Nat → List Nat × List Nat := fun k p => (gh k p).getD ([], [])
+
+theorem schedOf_extends (gh : Ghost) : Extends (schedOf gh) gh := by
+  intro k p v hv
+  simp [schedOf, hv]
+
+/-- **async_refines_history** (repeated use of one communicator, processes not synchronised, payload read from the send
+    buffer at transfer time).  In every state the asynchronous system can reach, for every schedule function that agrees
+    with the landing and completion orders the execution has taken so far (`schedOf a.gh` is one): a process that is
+    outside `sendRecv` after `k` communications is in exactly the state (containers and both buffers) the collective
+    semantics `specSt` gives it after `k` communications; a process inside `sendRecv` has gathered from that state and
+    holds in its receive buffer the messages of the same communication of the neighbours that have landed so far.  The
+    recorded orders are admissible schedules (`Sched`), so all theorems about `worldStep`/`runSt` (`history_calls`,
+    `forward_copy_spec`, `forward_add_spec`, …) speak about every asynchronous execution: each value gathered in a
+    communication reaches its matching entries in that same communication, exactly once, whatever the relative speed of
+    the processes. -/
+theorem async_refines_history (s : Setting) (h : s.OK) {Val Data : Type} (gather : Data → Nat → Nat → Val)
+    (scatter : Data → Val → Nat → Nat → Data) (dirs : List Bool) (pre : Nat → Nat → Cont Data → Cont Data)
+    (st0 : Nat → PState Val Data) {a : AState Val Data} (hr : AReach (s.asys gather scatter dirs pre) st0 a) :
+    (∀ sched, Extends sched a.gh → ∀ p, p < s.sys.P →
+      ((a.σ p).inC = false → (a.σ p).st = specSt (s.asys gather scatter dirs pre) st0 sched (a.σ p).k p) ∧
+      ((a.σ p).inC = true →
+        (a.σ p).st = midState (s.asys gather scatter dirs pre) st0 sched (a.σ p).k p (a.σ p).arrd)) ∧
+    (∀ k p arr order, a.gh k p = some (arr, order) →
+      p < s.sys.P ∧ k < (a.σ p).k ∧ Sched s ((s.asys gather scatter dirs pre).dir k) p arr order) := by
+  have hinv := areach_inv (s.asys_ok h gather scatter dirs pre) hr
+  refine ⟨hinv.data, ?_⟩
+  intro k p arr order hg
+  obtain ⟨hp, hk, harr, hord⟩ := hinv.ghost k p _ hg
+  refine ⟨hp, hk, ?_, ?_, ?_, hord.trans harr⟩
+  · exact (harr.nodup_iff).2 ((s.asys_ok h gather scatter dirs pre).recvsNodup _ _)
+  · intro p' hp'
+    exact s.postedRecvs_lt h _ (harr.subset hp')
+  · intro p' hp'
+    exact hord.subset hp'
+
+/-- **async_history_is_runSt.**  Without user assignments between the communications the collective semantics that
+    `async_refines_history` refers to is `runSt` on the history with the recorded schedules: a process that has finished
+    `k` communications is in the state `runSt` gives it after the first `k` rounds. -/
+theorem async_history_is_runSt (s : Setting) (h : s.OK) {Val Data : Type} (gather : Data → Nat → Nat → Val)
+    (scatter : Data → Val → Nat → Nat → Data) (dirs : List Bool) (st0 : Nat → PState Val Data) {a : AState Val Data}
+    (hr : AReach (s.asys gather scatter dirs (fun _ _ c => c)) st0 a) {p : Nat} (hp : p < s.sys.P)
+    (hout : (a.σ p).inC = false) :
+    (a.σ p).st = runSt s.comm gather scatter
+      ((List.range (a.σ p).k).map (roundOf (s.asys gather scatter dirs (fun _ _ c => c)) (schedOf a.gh))) st0 p := by
+  rw [((async_refines_history s h gather scatter dirs _ st0 hr).1 _ (schedOf_extends a.gh) p hp).1 hout,
+    specSt_eq_runSt _ st0 _ (fun _ _ _ => rfl)]
+  rfl
+
+/-- **async_message_is_gathered.**  Whenever MPI can transfer a message in a reachable state — `p` has an outstanding send
+    to `q`, `q` is inside `sendRecv` and still waits for `p` — that send was posted in the communication `q` is in, and
+    what is read from `p`'s buffer at that moment is the message `p` gathered for `q` in that communication (`specMsg`):
+    no process has overwritten a buffer that a neighbour has yet to read. -/
+theorem async_message_is_gathered (s : Setting) (h : s.OK) {Val Data : Type} (gather : Data → Nat → Nat → Val)
+    (scatter : Data → Val → Nat → Nat → Data) (dirs : List Bool) (pre : Nat → Nat → Cont Data → Cont Data)
+    (st0 : Nat → PState Val Data) {a : AState Val Data} (hr : AReach (s.asys gather scatter dirs pre) st0 a)
+    {p q k' : Nat} (hp : p < s.sys.P) (hq : q < s.sys.P) (hsend : (q, k') ∈ (a.σ p).outS) (hin : (a.σ q).inC = true)
+    (hpend : p ∈ (a.σ q).pendR) :
+    k' = (a.σ q).k ∧ ∀ sched, Extends sched a.gh →
+      transferMsg (s.asys gather scatter dirs pre) p q k' (a.σ p) =
+        specMsg (s.asys gather scatter dirs pre) st0 sched (a.σ q).k p q := by
+  have hA := s.asys_ok h gather scatter dirs pre
+  have hinv := areach_inv hA hr
+  obtain ⟨hk', hkq, _⟩ := hinv.transfer_round hA p q k' hp hq hsend hin hpend
+  exact ⟨by rw [hk', hkq], fun sched hext => hinv.transfer_msg hA p q k' hp hq hsend hin hpend sched hext⟩
+
+/-- **async_returns_without_pending_send.**  A process that is outside `sendRecv` has no outstanding send: when
+    `forward`/`backward` returns, every send request it posted has been completed (what harness/pmpi_c05.cc observes
+    through the profiling interface), so the buffers may be gathered into again, or released. -/
+theorem async_returns_without_pending_send (s : Setting) (h : s.OK) {Val Data : Type} (gather : Data → Nat → Nat → Val)
+    (scatter : Data → Val → Nat → Nat → Data) (dirs : List Bool) (pre : Nat → Nat → Cont Data → Cont Data)
+    (st0 : Nat → PState Val Data) {a : AState Val Data} (hr : AReach (s.asys gather scatter dirs pre) st0 a)
+    {p : Nat} (hp : p < s.sys.P) (hout : (a.σ p).inC = false) : (a.σ p).outS = [] := by
+  have hinv := areach_inv (s.asys_ok h gather scatter dirs pre) hr
+  apply List.eq_nil_iff_forall_not_mem.mpr
+  intro e he
+  have := (hinv.outS_ok p hp e he).1
+  rw [hout] at this
+  cases this
+
+/-- **async_progress** (termination over whole histories, part 1).  In no reachable state of the asynchronous system with
+    a process that has not finished the history is everything blocked: a process outside `sendRecv` can enter its next
+    communication; otherwise the process that is furthest behind either has a pending receive whose matching send is
+    posted and outstanding (MPI can transfer it), or an outstanding send whose receiver is inside the same
+    communication and waits for it, or can leave `sendRecv`.  (A late process delays its neighbours, it never blocks
+    them for good.) -/
+theorem async_progress (s : Setting) (h : s.OK) {Val Data : Type} (gather : Data → Nat → Nat → Val)
+    (scatter : Data → Val → Nat → Nat → Data) (dirs : List Bool) (pre : Nat → Nat → Cont Data → Cont Data)
+    (st0 : Nat → PState Val Data) {a : AState Val Data} (hr : AReach (s.asys gather scatter dirs pre) st0 a)
+    (hnot : ∃ p, p < s.sys.P ∧ (a.σ p).k < dirs.length) : ∃ a', AStep (s.asys gather scatter dirs pre) a a' :=
+  (areach_inv (s.asys_ok h gather scatter dirs pre) hr).progress (s.asys_ok h gather scatter dirs pre) hnot
+
+/-- **async_measure** (termination, part 2).  Every move of the asynchronous system (entering a communication, a
+    transfer, leaving `sendRecv`) strictly decreases the natural number `atodo`; so every execution of a history is
+    finite, and by `async_progress` it can only end with every process having finished all communications — in the state
+    `async_refines_history` describes. -/
+theorem async_measure (s : Setting) (h : s.OK) {Val Data : Type} (gather : Data → Nat → Nat → Val)
+    (scatter : Data → Val → Nat → Nat → Data) (dirs : List Bool) (pre : Nat → Nat → Cont Data → Cont Data)
+    (st0 : Nat → PState Val Data) {a a' : AState Val Data} (hr : AReach (s.asys gather scatter dirs pre) st0 a)
+    (hs : AStep (s.asys gather scatter dirs pre) a a') :
+    atodo (s.asys gather scatter dirs pre) a'.σ < atodo (s.asys gather scatter dirs pre) a.σ :=
+  (areach_inv (s.asys_ok h gather scatter dirs pre) hr).step_todo_lt hs
 
 /-! ## 8. What the translator regenerates from the source (tools/translators/tr_c05.py → Gen/C05.lean) -/
 
